@@ -43,3 +43,42 @@ def register(M):
     M('C05_bytes', ['C05'], 'checker.py',
       "        got = remove_prefixes(bytes_literal_re, got)\n", "",
       'bytes prefix not removed from got')
+
+    # ---- C01 ---------------------------------------------------------------
+    M('P4', ['C01', 'C13'], 'parser.py',
+      "        string = string.expandtabs()\n", "",
+      'tab expansion dropped (tab-indented docstrings lose their doctest)')
+    M('C01_deco', ['C04'], 'parser.py',
+      "                if hasattr(node, 'decorator_list') and node.decorator_list:\n                    lineno = node.decorator_list[0].lineno - 1",
+      "                if False:\n                    lineno = node.decorator_list[0].lineno - 1",
+      'decorator adjustment of PS1 line numbers dropped')
+    M('C01_ps2', ['C04'], 'parser.py',
+      "        ps1_linenos = sorted(set(ps1_linenos).difference(ps2_linenos))",
+      "        ps1_linenos = sorted(set(ps1_linenos))",
+      'explicit ... lines may become PS1 lines')
+    M('C01_dupstdout2', ['C01'], 'doctest_example.py',
+      "                    self.logged_evals[partx] = got_eval\n                    self.logged_stdout[partx] = cap.text\n\n        if self.exc_info is None:",
+      "                    self.logged_evals[partx] = got_eval\n                    self.logged_stdout[partx] = cap.cap_stdout.getvalue()\n\n        if self.exc_info is None:",
+      'recorded stdout of a part is the whole buffer (duplication)')
+    M('C01_pos', ['C01'], 'utils/util_stream.py',
+      "        self._pos = self.cap_stdout.tell()\n", "",
+      'CaptureStdout read position not advanced')
+    M('C01_F10', ['C02'], 'parser.py',
+      "            final_lines = exec_source_lines[ps1_linenos[-1]:] if ps1_linenos else exec_source_lines\n",
+      "            final_lines = exec_source_lines\n",
+      'reverse of fix F10 (semicolon anywhere in the chunk forces single mode)')
+    M('C01_F11', ['C01'], 'parser.py',
+      "(mid[0] == 'dsrc' and right[0] == 'dcnt' and\n                                     mid[1].lstrip().startswith('>>>'))",
+      "(mid[0] == 'dsrc' and right[0] == 'dcnt')",
+      'reverse of fix F11 (unprefixed string line followed by ... line starts a group)')
+    M('C01_complete', ['C01'], 'parser.py',
+      "                    if any(\"\'\'\'\" in s or \'\"\"\"\' in s for s in source_parts):",
+      "                    if any(\"\'\'\'\" in s for s in source_parts):",
+      'triple-quote rule for unprefixed lines only recognises single-quote triples')
+    M('C01_u4', ['C01'], 'parser.py',
+      "            if prefix.strip() not in {'>>>', '...', ''}:  # nocover",
+      "            if prefix.strip() not in {'>>>', '...'}:  # nocover",
+      'blank-prefixed continuation lines are kept whole (four columns too many)')
+    M('C01_ns', ['C01'], 'doctest_example.py',
+      "                                exec(code, test_globals)\n", "                                exec(code, dict(test_globals))\n",
+      'exec parts run in a copy of the namespace (bindings lost between parts)')
